@@ -247,6 +247,7 @@ class RefServer(object):
         self.little = little
         self.rng = rng
         self.requests = []
+        self.overshoot = 0
 
     def __call__(self, environ, start_response):
         path = environ.get("PATH_INFO", "")
@@ -277,8 +278,12 @@ class RefServer(object):
         if len(slices) > arr.ndim:
             raise ValueError("too many hyperslabs")
         for s, n in zip(slices, arr.shape):
-            if s.start < 0 or s.step < 1 or s.stop > n or s.start >= s.stop:
+            if s.start < 0 or s.step < 1 or s.start >= n or s.start >= s.stop:
                 raise ValueError("hyperslab out of range: %r for extent %d" % (s, n))
+            if s.stop > n:
+                # pydap's fix_slice may leave `stop` beyond the extent for strided slices (`x[1::3]` on 2
+                # elements is requested as [1:3:2]); numpy slicing clips, so does this server; counted
+                self.overshoot += 1
         sel = arr[tuple(slices)]
         parts = [p for p in key.split("/") if p]
         decl = None
